@@ -168,3 +168,72 @@ def forkstorm(ctx):
                 rp = vlib.write_replay(ctx, "forkstorm", {"kind": "descendants forked during the sweep survive", "signature": sig, "observed": got})
                 ctx.violations.append((sig, rp, False))
     return {"real_forced_shutdowns_forking_workers": seen}
+
+
+def globaljoin(ctx):
+    """shutdown(kill_workers=True) of one executor while another thread is inside shutdown(wait=True) of ANOTHER executor whose task is still
+    running.  Model/GlobalJoin.v: the effect is immediate (C06_forced_effect_is_prompt_beside_another_shutdown), the call itself returns only when
+    the other executor's task has ended (C06_forced_call_waits_for_the_other_executors_task: known finding H22)."""
+    from checks import simcommon
+    seen = []
+    for task_s in ([3.0] if ctx.tier == "quick" else [3.0, 6.0]):
+        res = runner.run_script(kill_scen.SCRIPT, vlib.REPO, timeout=120, args=("globaljoin", task_s))
+        got = runner.last_json(res)
+        why = []
+        if got is None:
+            why.append("no result: " + res["stderr"][-300:])
+        else:
+            if got["future_failed_after_s"] is None or got["future_failed_after_s"] > 1.5 or got["workers_dead_after_s"] is None or got["workers_dead_after_s"] > 1.5:
+                why.append(f"forced shutdown beside another executor's graceful shutdown: future failed after {got['future_failed_after_s']} s, "
+                           f"workers dead after {got['workers_dead_after_s']} s (the task would run 600 s)")
+            if got["future_outcome"] != "ShutdownExecutorError":
+                why.append(f"the unfinished future ended as {got['future_outcome']}")
+            if got["call_returned_after_s"] is None:
+                why.append("shutdown(kill_workers=True) had not returned after 30 s")
+            if got["other_result"] != task_s:
+                why.append(f"the other executor's task did not deliver its result: {got['other_result']}")
+        seen.append({"other_task_s": task_s, "ok": not why, "observed": got})
+        if why:
+            rp = vlib.write_replay(ctx, "globaljoin", {"kind": "forced shutdown beside another executor's graceful shutdown deviates from Model/GlobalJoin.v",
+                                                       "why": why, "observed": got})
+            ctx.violations.append((f"real forced shutdown (two executors): {why[0][:170]}", rp, False))
+        elif got["call_returned_after_s"] > 1.5:
+            sig = "forced-call-waits-for-another-executors-graceful-shutdown effect[prompt]"
+            kf = simcommon.match_known("C06", sig)
+            if kf is not None:
+                if not any(k.startswith(kf["id"] + " ") for k in ctx.known):
+                    ctx.known.append(f"{kf['id']} {kf['title']} (the call returned after {got['call_returned_after_s']} s; the other executor's task: {task_s} s)")
+            else:
+                rp = vlib.write_replay(ctx, "globaljoin", {"kind": "the forced call waits for another executor's tasks", "signature": sig, "observed": got})
+                ctx.violations.append((sig, rp, False))
+    return {"real_forced_shutdown_beside_another_shutdown": seen}
+
+
+def forced_idle(ctx):
+    """a forced shutdown that arrives when every future has finished: idle workers and what their finished tasks left behind (subprocesses)
+    must still be killed, promptly -- directly and through get_reusable_executor(kill_workers=True), with and without psutil"""
+    plans = [(1, 0), (0, 1)] if ctx.tier == "quick" else [(1, 0), (0, 0), (1, 1), (0, 1)]
+    seen, bad = [], []
+    for p in plans:
+        res = runner.run_script(kill_scen.SCRIPT, vlib.REPO, timeout=180, args=("forced_idle",) + p)
+        got = runner.last_json(res)
+        why = []
+        if got is None:
+            why.append("no result: " + res["stderr"][-300:])
+        else:
+            if got["hung"]:
+                why.append(f"the forced shutdown of an idle pool had not returned after 25 s; still alive {got['alive_after']}")
+            elif got["took_s"] > 5:
+                why.append(f"the forced shutdown of an idle pool took {got['took_s']} s")
+            if got["alive_after"]:
+                why.append(f"after a forced shutdown of an idle pool, workers / subprocesses left by finished tasks are alive: {got['alive_after']} of {got['pids']}")
+            if got["zombies"]:
+                why.append(f"unreaped children: {got['zombies']}")
+        seen.append({"psutil": p[0], "reusable": p[1], "ok": not why, "took_s": got and got["took_s"]})
+        if why:
+            bad.append({"plan": {"psutil": p[0], "through_get_reusable_executor": p[1], "history": "three tasks each start a subprocess and return; all results fetched; then the forced shutdown"},
+                        "why": why, "observed": got})
+    if bad:
+        rp = vlib.write_replay(ctx, "forcedidle", {"kind": "forced shutdown of an idle pool deviates", "cases": bad})
+        ctx.violations.append((f"real forced shutdown (idle pool): {bad[0]['why'][0][:170]}", rp, False))
+    return {"real_forced_shutdowns_idle_pool": seen}
